@@ -470,6 +470,9 @@ func (v *vc) intrinsic(fr *frame, st *state, instr ssa.Instruction, name string,
 		set(r)
 		return true
 	}
+	if v.protoGetter(fr, st, name, c, args, res) {
+		return true
+	}
 	if strings.HasPrefix(name, "(*go.uber.org/zap.Logger).") || strings.HasPrefix(name, "go.uber.org/zap.") || strings.HasPrefix(name, "(*log.Logger).") || strings.HasPrefix(name, "log.Print") || strings.HasPrefix(name, "(*go.uber.org/zap.SugaredLogger).") || strings.HasPrefix(name, "go.uber.org/zap/zapcore.") {
 		v.trusted["model: logging (zap/log) has no effect on modelled state"] = true
 		set(v.havocResults(st, sig, "log")...)
@@ -525,4 +528,55 @@ func (v *vc) intrinsicMods(fr *frame, name string, c *ssa.CallCommon) (bool, []s
 		return true, []string{"alloc"}
 	}
 	return false, nil
+}
+
+// protoGetter models generated protobuf getters "(*internal.T).GetF" as a field read:
+// nil receiver or unset optional field gives the zero value.
+func (v *vc) protoGetter(fr *frame, st *state, name string, c *ssa.CallCommon, args []string, res *ssa.Call) bool {
+	callee, ok := c.Value.(*ssa.Function)
+	if !ok || callee.Signature.Recv() == nil || !strings.HasPrefix(callee.Name(), "Get") {
+		return false
+	}
+	if !strings.Contains(name, "/internal.") {
+		return false
+	}
+	pt, ok := callee.Signature.Recv().Type().Underlying().(*types.Pointer)
+	if !ok || !isStruct(pt.Elem()) || callee.Signature.Results().Len() != 1 {
+		return false
+	}
+	stt := pt.Elem()
+	s := stt.Underlying().(*types.Struct)
+	fname := strings.TrimPrefix(callee.Name(), "Get")
+	rt := callee.Signature.Results().At(0).Type()
+	for i := 0; i < s.NumFields(); i++ {
+		f := s.Field(i)
+		if f.Name() != fname {
+			continue
+		}
+		recv := args[0]
+		h, _ := v.fieldHeap(stt, i)
+		fv := sel(v.getHeap(st, h), recv)
+		if a, isAddr := fr.addrs[c.Args[0]]; isAddr && recv == "interior_ptr" {
+			// receiver is the address of a struct-valued slot (e.g. &w.pb)
+			fv = fmt.Sprintf("(%s %s)", v.sc.structSel(stt, i), v.load(st, a))
+		}
+		var val string
+		if types.Identical(f.Type(), rt) {
+			val = ite(fmt.Sprintf("(= %s 0)", recv), v.sc.zero(rt), fv)
+		} else if fp, ok := f.Type().Underlying().(*types.Pointer); ok && types.Identical(fp.Elem(), rt) && !isStruct(rt) {
+			ch, _ := v.cellHeap(rt)
+			val = ite(fmt.Sprintf("(or (= %s 0) (= %s 0))", recv, fv), v.sc.zero(rt), sel(v.getHeap(st, ch), fv))
+		} else {
+			return false
+		}
+		v.trusted["model: protobuf getters (*internal.T).GetF read field F (zero value when unset)"] = true
+		n := v.define("get"+fname, v.sc.sortOf(rt), val)
+		if inv := v.sc.typeInv(n, rt); inv != "" {
+			v.fact(st, inv)
+		}
+		v.refFacts(st, n, rt)
+		v.setResult(fr, st, res, []string{n})
+		return true
+	}
+	return false
 }
